@@ -385,10 +385,10 @@ theorem shift_BlockDone (hq : c.r.numBits < 8 * c.inPos + 8) :
 
 /-- One transition, re-based. -/
 theorem step_shift (hnb : c.r.state = sBlockDone → c.r.numBits < 8 * c.inPos + 8) :
-    ∃ x', step (e.pre a) (T a.size x c) out = (step e c out).mapT a.size x' := by
+    ∃ x', (c.r.state ≠ sStart → x' = x) ∧ step (e.pre a) (T a.size x c) out = (step e c out).mapT a.size x' := by
   by_cases hStart : c.r.state = sStart
-  · exact ⟨1, by rw [step_Start hStart, step_Start (c := T a.size x c) hStart]; exact shift_Start⟩
-  refine ⟨x, ?_⟩
+  · exact ⟨1, fun h => absurd hStart h, by rw [step_Start hStart, step_Start (c := T a.size x c) hStart]; exact shift_Start⟩
+  refine ⟨x, fun _ => rfl, ?_⟩
   by_cases hReadZlibCmf : c.r.state = sReadZlibCmf
   · rw [step_ReadZlibCmf hReadZlibCmf, step_ReadZlibCmf (c := T a.size x c) hReadZlibCmf]; exact shift_ReadZlibCmf
   by_cases hReadZlibFlg : c.r.state = sReadZlibFlg
